@@ -495,7 +495,7 @@ func c12ChildBatch(payload []byte) ([]byte, error) {
 		for {
 			time.Sleep(500 * time.Millisecond)
 			cur.Lock()
-			stuck := !cur.since.IsZero() && time.Since(cur.since) > 60*time.Second
+			stuck := !cur.since.IsZero() && time.Since(cur.since) > 20*time.Second
 			i := cur.i
 			cur.Unlock()
 			if stuck {
@@ -1091,6 +1091,7 @@ func TestC12(t *testing.T) {
 				os.WriteFile(p, b, 0o644)
 				fmt.Printf("INCONCLUSIVE property=C12 parser did not return within the watchdog on case %d (input saved to %s)\n", no, p)
 				t.Errorf("INCONCLUSIVE: hang suspect, see %s", p)
+				no = res.job.to // the rest of this batch is not run: a systematic hang would cost a watchdog period per case
 			default:
 				site := "unknown"
 				if m := c11RepoFrames(res.res.Log); len(m) > 0 {
